@@ -236,6 +236,13 @@ def _kde(spec, ctx):
     w = rng.random(n) + 0.05 if spec['weighted'] else None
     where = {'n': n, 'bw': spec['bw'], 'weighted': spec['weighted'], 'sample_size': spec['sample_size']}
     model = GaussianKDE(bw_method=spec['bw'], weights=w, sample_size=spec['sample_size'])
+    if spec['seed'] % 3 == 0 and not spec['weighted']:
+        # the object was fitted before on data of another size and used
+        past = rng.normal(size=int(rng.choice([7, 3 * n + 11])))
+        np.random.seed(5)
+        if ctx.call(model.fit, past)[0]:
+            ctx.call(model.probability_density, past[:3])
+        where['refitted'] = True
     np.random.seed(spec['seed'] % (2 ** 31))
     ok, exc = ctx.call(model.fit, x.copy())
     if not ok:
